@@ -16,8 +16,10 @@ import traceback
 from . import symx, loader
 
 VERIF = os.path.dirname(os.path.dirname(os.path.abspath(__file__)))
-EVIDENCE_DIR = os.path.join(VERIF, 'evidence')
-REPLAY_DIR = os.path.join(VERIF, 'replays')
+# seeded-defect trials (tools/tryseed.sh) redirect both, so that the committed evidence only
+# ever comes from runs against /repo itself
+EVIDENCE_DIR = os.environ.get('VERIF_EVIDENCE_DIR') or os.path.join(VERIF, 'evidence')
+REPLAY_DIR = os.environ.get('VERIF_REPLAY_DIR') or os.path.join(VERIF, 'replays')
 KNOWN_FINDINGS = os.path.join(VERIF, 'known_findings.json')
 
 
